@@ -4,6 +4,6 @@ Require Import ExtrOcamlBasic.
 From Verif Require Import Lib.Base Lib.Dyadic Lib.Utf8 Model.Value.
 Extraction "model.ml"
   of_bits canon
-  parse_float parse_float_prefix scan_prefix go_parse_float trim_space
+  parse_float parse_float_prefix scan_prefix go_parse_float ascii_trim
   num_to_str v_str v_num v_boolean is_true_str prov_value
   expr_site jump_site spec_cmp cond_direct cond_inverted.
